@@ -29,6 +29,10 @@ pub fn encode(x: f64) -> u64 {
     let sign = bits >> 63;
     let t = ((bits >> 52) & 0x7ff) as i64 - 1023; // x in [2^t, 2^(t+1))
     let m = (bits & ((1u64 << 52) - 1)) | (1u64 << 52); // 53-bit significand, value m * 2^(t-52)
+    if t == 252 && m == 1u64 << 52 {
+        // 16^63, one step beyond the range: the double the largest real (mantissa all ones) rounds to
+        return (sign << 63) | 0x7fff_ffff_ffff_ffff;
+    }
     let e16 = t.div_euclid(4) + 1; // E - 64
     let s = t + 4 - 4 * e16; // 0..=3
     debug_assert!((0..=3).contains(&s));
